@@ -27,6 +27,10 @@ type Case struct {
 	When    int    `json:"when"`    // fault / crash: the N-th invocation (per thread)
 	Errno   string `json:"errno"`   // fault: injected error
 	Limit   int    `json:"limit"`   // fsize: RLIMIT_FSIZE in bytes
+	// history mode: the first run (crashed at Syscall/When) works on File, then the user replaces the content by Second and runs again
+	Second string `json:"second,omitempty"`
+	// multi mode: file kinds formatted by ONE invocation `falco fmt -w a.vcl b.vcl ...` (Syscall/When: optional crash point)
+	Files []string `json:"files,omitempty"`
 }
 
 func bigFile() string {
@@ -168,6 +172,7 @@ func histories() map[string]map[string]int {
 
 func gen16(tier string, emit func(Case)) {
 	hist := histories()
+	genMulti(hist, emit)
 	for _, fk := range fileKinds {
 		emit(Case{File: fk.name, Mode: "clean"})
 		emit(Case{File: fk.name, Mode: "readonly-file"})
@@ -213,6 +218,22 @@ func gen16(tier string, emit func(Case)) {
 				continue
 			}
 		}
+		// histories: a run killed at each call that touches the directory or a temporary file, then an edit that makes the
+		// output shorter (or longer), then a normal run: the second run must not be affected by what the first one left behind
+		if fk.name == "with-comments" || fk.name == "big" || fk.name == "small" {
+			for _, sc := range []string{"openat", "write", "fsync", "fchmod", "fchmodat", "renameat", "rename", "renameat2", "close", "unlinkat"} {
+				for n := 1; n <= h[sc]+1; n++ {
+					if (sc == "openat" || sc == "close") && h[sc] > 14 && n < h[sc]-12 {
+						continue
+					}
+					for _, second := range []string{"small", "no-trailing-newline", "big"} {
+						if second != fk.name {
+							emit(Case{File: fk.name, Mode: "history", Syscall: sc, When: n, Second: second})
+						}
+					}
+				}
+			}
+		}
 		// every file-size limit
 		n := len(fk.content)
 		step := 1
@@ -225,7 +246,127 @@ func gen16(tier string, emit func(Case)) {
 	}
 }
 
+// runMulti: several targets in one invocation; every file must end as its own original or its own formatted text.
+func runMulti(c Case) engine.Result {
+	dir, err := os.MkdirTemp(engine.Scratch(), "c16-")
+	if err != nil {
+		panic(err)
+	}
+	defer os.RemoveAll(dir)
+	var names []string
+	for i, k := range c.Files {
+		n := fmt.Sprintf("f%d.vcl", i)
+		names = append(names, n)
+		os.WriteFile(filepath.Join(dir, n), []byte(kind(k)), 0o644)
+	}
+	expected := map[string][]byte{}
+	ok := map[string]bool{}
+	for _, n := range names {
+		cmd := exec.Command(falcoBin(), "fmt", n)
+		cmd.Dir = dir
+		cmd.Env = []string{"HOME=" + dir, "PATH=/usr/bin:/bin", "GOMAXPROCS=1", "NO_COLOR=1", "TERM=xterm"}
+		var so bytes.Buffer
+		cmd.Stdout = &so
+		if cmd.Run() == nil {
+			expected[n], ok[n] = so.Bytes(), true
+		}
+	}
+	var pre []string
+	if c.Syscall != "" {
+		pre = []string{"strace", "-f", "-qq", "-o", filepath.Join(dir, ".log"), "-e", traceSet, "-e", fmt.Sprintf("inject=%s:signal=SIGKILL:when=%d", c.Syscall, c.When)}
+	}
+	exit, killed, out := runFalco(dir, pre, append([]string{"fmt", "-w"}, names...)...)
+	res := engine.Result{NonTrivial: true, Outcome: fmt.Sprintf("multi exit=%v killed=%v", exit != 0, killed)}
+	for i, n := range names {
+		after, rerr := os.ReadFile(filepath.Join(dir, n))
+		orig := []byte(kind(c.Files[i]))
+		switch {
+		case rerr != nil, !bytes.Equal(after, orig) && !(ok[n] && bytes.Equal(after, expected[n])):
+			res.Findings = append(res.Findings, engine.Finding{Class: fmt.Sprintf("damaged|multi|target %d of %d", i+1, len(names)),
+				What:   fmt.Sprintf("`falco fmt -w %s` (kinds %v, exit %d, killed %v): %s holds neither its original bytes nor its formatted text (%d bytes; original %d, formatted %d)", strings.Join(names, " "), c.Files, exit, killed, n, len(after), len(orig), len(expected[n])),
+				Detail: map[string]string{"output": trunc(out), "after": trunc(string(after))}})
+		case !killed && exit == 0 && ok[n] && !bytes.Equal(after, expected[n]):
+			res.Findings = append(res.Findings, engine.Finding{Class: fmt.Sprintf("succeeded-but-unchanged|multi|target %d of %d", i+1, len(names)),
+				What: fmt.Sprintf("`falco fmt -w %s` reported success but %s was not rewritten", strings.Join(names, " "), n)})
+		}
+	}
+	return res
+}
+
+// runHistory: first run killed at a crash point, then the content is replaced, then a normal run.
+func runHistory(c Case) engine.Result {
+	dir, err := os.MkdirTemp(engine.Scratch(), "c16-")
+	if err != nil {
+		panic(err)
+	}
+	defer os.RemoveAll(dir)
+	target := filepath.Join(dir, "f.vcl")
+	os.WriteFile(target, []byte(kind(c.File)), 0o644)
+	runFalco(dir, []string{"strace", "-f", "-qq", "-o", filepath.Join(dir, ".log"), "-e", traceSet, "-e", fmt.Sprintf("inject=%s:signal=SIGKILL:when=%d", c.Syscall, c.When)}, "fmt", "-w", "f.vcl")
+	os.Remove(filepath.Join(dir, ".log"))
+	second := []byte(kind(c.Second))
+	os.WriteFile(target, second, 0o644)
+	var expected []byte
+	baseOK := false
+	{
+		cmd := exec.Command(falcoBin(), "fmt", "f.vcl")
+		cmd.Dir = dir
+		cmd.Env = []string{"HOME=" + dir, "PATH=/usr/bin:/bin", "GOMAXPROCS=1", "NO_COLOR=1", "TERM=xterm"}
+		var so bytes.Buffer
+		cmd.Stdout = &so
+		if cmd.Run() == nil {
+			baseOK, expected = true, so.Bytes()
+		}
+	}
+	exit, killed, out := runFalco(dir, nil, "fmt", "-w", "f.vcl")
+	after, rerr := os.ReadFile(target)
+	res := engine.Result{NonTrivial: true, Outcome: fmt.Sprintf("history exit=%v", exit != 0)}
+	good := rerr == nil && (bytes.Equal(after, second) || (baseOK && bytes.Equal(after, expected)))
+	if !good || (exit == 0 && baseOK && !bytes.Equal(after, expected)) {
+		res.Findings = append(res.Findings, engine.Finding{Class: fmt.Sprintf("damaged|history|after a run killed at %s", c.Syscall),
+			What:   fmt.Sprintf("a `fmt -w` of a %s file was killed at %s call #%d, the content was replaced by the %s file and `fmt -w` run again (exit %d, killed %v): the file holds neither the new original nor its formatted text (%d bytes; original %d, formatted %d)", c.File, c.Syscall, c.When, c.Second, exit, killed, len(after), len(second), len(expected)),
+			Detail: map[string]string{"output": trunc(out), "after": trunc(string(after))}})
+	}
+	return res
+}
+
+// genMulti: every ordered selection of 2 and 3 of four file kinds in one invocation, without fault and killed at every rename
+func genMulti(hist map[string]map[string]int, emit func(Case)) {
+	ks := []string{"small", "no-trailing-newline", "with-comments", "invalid"}
+	var sels [][]string
+	for _, a := range ks {
+		for _, b := range ks {
+			if a != b {
+				sels = append(sels, []string{a, b})
+				for _, c := range ks {
+					if c != a && c != b {
+						sels = append(sels, []string{a, b, c})
+					}
+				}
+			}
+		}
+	}
+	sels = append(sels, []string{"big", "small", "with-comments"}, []string{"small", "big"}, []string{"small", "small", "small"})
+	for _, sel := range sels {
+		emit(Case{Mode: "multi", Files: sel})
+		for _, sc := range []string{"renameat", "rename", "renameat2"} {
+			if hist["small"][sc] == 0 {
+				continue
+			}
+			for n := 1; n <= len(sel); n++ {
+				emit(Case{Mode: "multi", Files: sel, Syscall: sc, When: n})
+			}
+		}
+	}
+}
+
 func run(c Case) engine.Result {
+	if c.Mode == "multi" {
+		return runMulti(c)
+	}
+	if c.Mode == "history" {
+		return runHistory(c)
+	}
 	dir, err := os.MkdirTemp(engine.Scratch(), "c16-")
 	if err != nil {
 		panic(err)
@@ -392,7 +533,7 @@ func init() {
 		Rule: "for 8 file contents (small / already formatted / no trailing newline / with comments / statement-only snippet / syntactically invalid / empty / 24 KB) the syscall history of the real `falco fmt -w FILE` is recorded under strace; then every invocation number of every file-related syscall in that history (openat, read, write, close, newfstatat, rename*, fsync, fchmod*, unlinkat, ftruncate - the file-modifying ones from the first invocation, the read-only ones over their last 12 invocations in the quick tier) is re-run once per errno of its menu (fault) and once with SIGKILL delivered on entry (crash point = every prefix of the history), plus every RLIMIT_FSIZE from 0 to the output size + 8 (stride 97 for the big file in the quick tier), a target that cannot be opened for writing and a directory in which nothing can be created; after each run the file must hold its original bytes or exactly what `falco fmt FILE` prints; non-zero exit => original; zero exit => formatted. non-trivial = every run; distinct = distinct (file kind, fault)",
 		Gen:  gen16,
 		Key: func(c Case) string {
-			return fmt.Sprintf("%s|%s|%s|%d|%s|%d", c.File, c.Mode, c.Syscall, c.When, c.Errno, c.Limit)
+			return fmt.Sprintf("%s|%s|%s|%d|%s|%d|%s|%s", c.File, c.Mode, c.Syscall, c.When, c.Errno, c.Limit, c.Second, strings.Join(c.Files, ","))
 		},
 		Run:     run,
 		Workers: 16,
